@@ -31,7 +31,7 @@ func init() {
 
 		{Name: "getBindingTarget delegates to the chain library", Kill: false, File: fAPIUtil,
 			Old: "\thash := append(massutil.Hash160(pub), byte(proofType), byte(bitLength))\n\ttarget, err := massutil.NewAddressBindingTarget(hash, config.ChainParams)\n\tif err != nil {\n\t\treturn \"\", err\n\t}\n\treturn target.EncodeAddress(), nil",
-			New: "\treturn massutil.GetBindingTarget(pub, proofType, bitLength)"},
+			New: "\t_ = config.ChainParams\n\treturn massutil.GetBindingTarget(pub, proofType, bitLength)"},
 		{Name: "wrapper written allow-first", Kill: false, File: fGateway,
 			Old: "\t\tif !isAllowedAddress(req.RemoteAddr) {\n\t\t\tlogging.CPrint(logging.WARN, \"api received request from forbidden address\", logging.LogFormat{\"remote_addr\": req.RemoteAddr, \"url_path\": req.URL.Path})\n\t\t\truntime.OtherErrorHandler(w, req, http.StatusText(http.StatusForbidden), http.StatusForbidden)\n\t\t\treturn\n\t\t}\n\t\th.ServeHTTP(w, req)",
 			New: "\t\tif isAllowedAddress(req.RemoteAddr) {\n\t\t\th.ServeHTTP(w, req)\n\t\t\treturn\n\t\t}\n\t\tlogging.CPrint(logging.WARN, \"api received request from forbidden address\", logging.LogFormat{\"remote_addr\": req.RemoteAddr, \"url_path\": req.URL.Path})\n\t\truntime.OtherErrorHandler(w, req, http.StatusText(http.StatusForbidden), http.StatusForbidden)"},
